@@ -113,8 +113,70 @@ func r45TargetPathSuffix(c *core.Ctx) {
 // R46: the containment predicate used for hole matching counts boundary points
 // as inside and examines every segment: every early exit returns contains=true,
 // the final verdict is produced after the loop over all segments.
+// r46AreaSumsEveryEdge: the area used to pick the smallest containing shell is the shoelace sum over all n edges of
+// the (open) ring, the closing edge last->first included: a range over the whole ring with the previous point
+// starting at ring[len-1], or an index loop over the whole ring pairing i with (i+1) % len.
+func r46AreaSumsEveryEdge(c *core.Ctx) {
+	const R = "R46"
+	f := c.Anchor(R, "geomhelp.Shoelace")
+	if f == nil {
+		return
+	}
+	info := f.Pkg.TypesInfo
+	ring := f.Obj.Type().(*types.Signature).Params().At(0)
+	construct := "area-sums-every-edge/" + f.Name
+	why := "no loop over the ring found"
+	okc := false
+	for _, st := range f.Decl.Body.List {
+		switch loop := st.(type) {
+		case *ast.RangeStmt:
+			if core.ObjOf(info, loop.X) != ring {
+				why = "the loop does not range over the whole ring"
+				continue
+			}
+			// (b) for i := range ring with (i+1) % len(ring)
+			if loop.Key != nil && strings.Contains(canonNode(c.P, loop.Body), "("+canon(loop.Key)+"+1)%len("+ring.Name()+")") {
+				okc = true
+				continue
+			}
+			// (a) prev := ring[len(ring)-1]; for _, cur := range ring { …; prev = cur }
+			if loop.Value == nil || len(loop.Body.List) == 0 {
+				why = "the loop has no element variable"
+				continue
+			}
+			cur := core.ObjOf(info, loop.Value)
+			last, ok := loop.Body.List[len(loop.Body.List)-1].(*ast.AssignStmt)
+			if !ok || len(last.Lhs) != 1 || len(last.Rhs) != 1 || core.ObjOf(info, last.Rhs[0]) != cur {
+				why = "the previous point is not advanced to the current one at the end of each iteration"
+				continue
+			}
+			prev := core.ObjOf(info, last.Lhs[0])
+			def := lastDefBefore(info, f.Decl.Body, prev, loop.Pos())
+			if def == nil {
+				why = "the previous point has no start value"
+				continue
+			}
+			if ix, ok := ast.Unparen(def).(*ast.IndexExpr); ok && core.ObjOf(info, ix.X) == ring && canon(ix.Index) == "len("+ring.Name()+")-1" {
+				okc = !hasJump(loop.Body, token.CONTINUE, token.BREAK, token.GOTO).IsValid()
+				why = "an iteration can be skipped"
+			} else {
+				why = "the previous point starts at " + core.ExprStr(def) + ", not at the last vertex: the closing edge is not summed"
+			}
+		case *ast.ForStmt:
+			body := canonNode(c.P, loop.Body)
+			if loop.Cond != nil && strings.HasSuffix(canon(loop.Cond), "<len("+ring.Name()+")") && strings.Contains(body, "+1)%len("+ring.Name()+")") {
+				okc = true
+			} else {
+				why = "the index loop does not pair i with (i+1) % len(ring) over the whole ring"
+			}
+		}
+	}
+	c.Check(R, construct, f.Decl.Pos(), okc, "all n edges of the open ring are summed, the closing edge included", "Shoelace does not sum over every edge of the ring ("+why+"): the area depends on where the ring starts, and the smallest containing shell of a hole is picked by area")
+}
+
 func r46RingContainsExamineAll(c *core.Ctx) {
 	const R = "R46"
+	r46AreaSumsEveryEdge(c)
 	f := c.Anchor(R, "snap.ringContains")
 	if f == nil {
 		return
